@@ -64,6 +64,16 @@ func (r *vILazyRunner) Run() error {
 	return nil
 }
 
+// a closer that wires the App itself and whose name sorts before the App's: it is still being
+// created when the App collects its closers
+type vIAppCloser struct {
+	A      *App `wire:""`
+	closed int
+}
+
+func (c *vIAppCloser) Naming() string { return "a-shutdown-hook" }
+func (c *vIAppCloser) Close() error   { c.closed++; return nil }
+
 // stateless (zero-sized) runners: real Go may give all of them one address
 type vIZRun1 struct{}
 type vIZRun2 struct{}
@@ -107,6 +117,11 @@ func VerifAppIntegration() {
 	if stateless {
 		comps = append(comps, &vIZRun1{}, &vIZRun2{})
 	}
+	var hook *vIAppCloser
+	if nd.Bool() {
+		hook = &vIAppCloser{}
+		comps = append(comps, hook)
+	}
 	s := &App{Configure: &vICfg{}, registry: support.NewRegistry(), Factory: factory.Default()}
 	SetComponents(comps...)(s)
 	nd.Assert(s.initiate() == nil, "initiate ok")
@@ -142,6 +157,12 @@ func VerifAppIntegration() {
 	}
 	nd.Cover("start ok")
 	nd.Assert(err == nil, "C13: start-up succeeds")
+	if hook != nil {
+		nd.Cover("closer that wires the App")
+		nd.Assert(hook.A == s, "C01: a component that wires the App receives the App")
+		s.Close()
+		nd.Assert(hook.closed == 1, "C14: App.Close invokes every registered closer exactly once, also one that was still being created when the App collected its closers")
+	}
 	nd.Assert(inits == n, "C05: every eager component is initialised exactly once")
 	nd.Assert(runs == nr, "C13: every registered runner is invoked exactly once")
 	nd.Assert(firstRun < 0 || lastInit < firstRun, "C13: runners are invoked only after every eagerly created component has finished initialization")
